@@ -5,7 +5,7 @@ from lib.runner import Outcome
 from gen import records as R
 
 ID = "C05"
-LEAN_TARGETS = ["CLModel.Props.C05"]
+LEAN_TARGETS = ["CLModel.Props.C05", "CLModel.Proofs.C05Props"]
 M = "CLModel.Props.C05"
 THEOREMS = [
     (M, "C05.parse_never_stuck", "for every regex format and every text the parser model terminates with a finite entry list (no hang)"),
@@ -15,24 +15,44 @@ THEOREMS = [
     (M, "C05.encoding_results_wellformed", "all results of the base check are warnings with a position inside the text"),
     (M, "C05.merge_no_type_error", "ContentComparer.merge never raises the None-span TypeError when every skip has a span"),
     (M, "C05.merge_type_error_iff", "…and raises it exactly when two or more skips are present and one has no span (Android: finding F5 of C04)"),
+    (M, "C05.compare_never_raises_partial", "the composed Except-valued model of ContentComparer.compare (parse, duplicates, AddRemove loop, base / properties checker, positions, observers, merge, updateStats) returns a report for ALL pairs of texts of ini/inc/po/properties, any file, any fresh observers/filters/quiet, with or without merge — unless a key is shared with a Junk of the reference (NoJunkClashT)"),
+    (M, "C05.compareTexts_never_raises_partial", "the same for the harness configuration (one unfiltered Observer, a.<ext>, locale de)"),
+    (M, "C05.report_wellformed_partial", "every item of toJSON()['details'] of that report is an error/warning whose value is a str of one of the four message shapes with %d-formatted integer positions, or a missing/obsolete key"),
+    (M, "C05.ufffd_warned_end_to_end_partial", "for every shared key whose last localized entry contains U+FFFD the finished report has the warning '� in: <key> at line l, column c for <key>' (base and properties checker)"),
+    (M, "C05.lint_never_raises", "the composed model of L10nLinter.lint_file returns a result list for ALL texts of ini/inc/po/properties, with or without a reference (no hypothesis)"),
+    (M, "C05.fileName_parser", "getParser('a.<ext>') selects the parser class of the format (generated constructor table)"),
+    (M, "C05.fileName_checker", "PropertiesChecker.pattern matches a.properties; no special checker pattern matches a.ini / a.inc / a.po (base Checker)"),
+    (M, "C05.junk_key_clash_raises", "negation witness for NoJunkClashT: reference 'abc' against '_junk_1_0-3=x' makes the model raise AttributeError, as the code does"),
+    (M, "C05.ex_noClash", "NoJunkClashT holds on a text pair with junk + missing + obsolete + U+FFFD (non-vacuity)"),
+    ("CLModel.Proofs.C05Props", "Pipe.unescape_eq_propsVal", "the unescape model used by the properties checker (C06) equals the one of C02 on every text, hence is total"),
+    ("CLModel.Proofs.C05Props", "Pipe.check_shape", "PropertiesChecker.check never raises and yields the base check results first"),
 ]
 PARTIAL = [
-    "the full pipeline (decoding, expat, minidom, fluent.syntax, every checker) is not modelled as one Except-valued function yet; "
-    "'never raises / report well-formed' for it is decided by executing the real code under a subprocess watchdog (oracle), "
-    "the theorems cover termination of the regex parsers, the encoding warning and the only raise site of the merge splice",
+    "one composed Except-valued model (CLModel/Compare/Pipeline.lean: compareFiles / compareTexts / lintText) exists for ini, inc, po and "
+    "properties and is tied to the real ContentComparer.compare + toJSON() + merge file and to L10nLinter.lint_file by correspondence; "
+    "the end-to-end theorems are proved for these four; dtd (expat), ftl (fluent.syntax), android (minidom) are not in "
+    "the composed model: for them 'never raises / report well-formed' is decided by the execution oracle under the watchdog",
+    "compare_never_raises / report_wellformed / ufffd_warned_end_to_end carry the hypothesis NoJunkClashT (no shared key belongs to a Junk "
+    "of the reference): without it the statement is false for the code (Junk has no `equals`: AttributeError, finding "
+    "F8-junk-key-clash-raise; negation witness C05.junk_key_clash_raises, probed on the real code by the directed family 'junk-key-clash')",
+    "the end-to-end theorems cover ini, inc, po and properties; for properties the missing piece of C06 (totality of its unescape model) "
+    "is proved here (Pipe.unescape_eq_propsVal)",
+    "decoding (bytes -> text, errors='replace', universal newlines) is outside the model: the model texts are read off Parser.readFile",
 ]
 TRUSTED = [
     "codecs / open(errors='replace') replace undecodable bytes (CPython); expat, minidom, fluent.syntax are external",
     "subprocess watchdog observes hangs (deadline, retried with 10x)",
 ]
 ASSUMPTIONS = []
-LEVEL_TEXT = ("Lean 4 theorems for the parts of 'always produces a report' that are logic of this code base (regex parsers terminate on every "
-              "text, U+FFFD always yields an encoding warning, the merge splice raises only for span-less entries), and an execution oracle "
-              "on the real compare/merge/lint pipeline over structured, mutated and arbitrary byte pairs per file type under a watchdog")
+LEVEL_TEXT = ("Lean 4 theorems about ONE composed Except-valued model of compare(+merge staging)+toJSON and of lint for ini, inc, po, properties: never raises "
+              "on any pair of texts (outside the junk-key clash, a recorded finding), report items well formed, U+FFFD warned end to end; the "
+              "model is tied to the real code by differential correspondence of the whole report; all seven file types "
+              "additionally run under an execution oracle over structured, mutated and arbitrary byte pairs with a watchdog")
 LEVEL_NOTE = "trusted: Lean kernel, regex model, CPython codecs and the external XML/Fluent parsers; the end-to-end claim is sampled, not proved"
-TECHNIQUE = "Lean 4 proof of the pure parts + watchdog-supervised execution oracle on arbitrary byte pairs"
+TECHNIQUE = "Lean 4 proof over one composed Except-valued pipeline model + differential correspondence + watchdog-supervised execution oracle on arbitrary byte pairs"
 
 FORMATS = ["properties", "dtd", "ini", "inc", "ftl", "po", "android"]
+PIPE_FORMATS = ("ini", "inc", "po", "properties")      # formats of the composed model (CLModel/Compare/Pipeline.lean)
 BAD_BYTES = [b"\xff", b"\xfe\xff", b"\xc3", b"\xe2\x82", b"\x00", b"\xef\xbf\xbd", b"\xed\xa0\x80", b"\x80", b"\xf0\x9f"]
 
 
@@ -138,6 +158,100 @@ def gen_cases(ctx):
         cases.append({"fmt": "properties", "ref": props.encode("utf-8").decode("latin-1"),
                       "l10n": props.replace("= v", "= %").encode("utf-8").decode("latin-1"),
                       "merge": rng.random() < 0.5, "tag": "props-exotic-names"})
+    # ---- directed families for the composed pipeline model (ini, inc, po, properties)
+    def lat(t):
+        return t.encode("utf-8").decode("latin-1")
+
+    def add(fmt, ref, l10n, tag, merge=None):
+        cases.append({"fmt": fmt, "ref": lat(ref), "l10n": lat(l10n), "merge": (rng.random() < 0.5) if merge is None else merge, "tag": tag})
+
+    # (i) the key of a localized entity equals the key of a reference Junk (and the other way round): Junk has no `equals`
+    for i in range(ctx.n(24, 200)):
+        fmt = rng.choice(["ini", "properties", "ini", "properties", "inc", "po"])   # inc keys are \\w+, po keys tuples: no clash possible
+        junk = rng.choice(["??", "abc", "? ?", "%%"])
+        pre_n = rng.randrange(0, 3)
+        if fmt == "ini":
+            head = "[Strings]\n" + "".join("p%d=v\n" % j for j in range(pre_n))
+            ent = lambda k, v: "%s=%s\n" % (k, v)
+        elif fmt == "inc":
+            head = "".join("#define p%d v\n" % j for j in range(pre_n))
+            ent = lambda k, v: "#define %s %s\n" % (k, v)
+        elif fmt == "properties":
+            head = "".join("p%d = v\n" % j for j in range(pre_n))
+            ent = lambda k, v: "%s = %s\n" % (k, v)
+        else:
+            head = "".join('msgid "p%d"\nmsgstr "v"\n\n' % j for j in range(pre_n))
+            ent = lambda k, v: 'msgid "%s"\nmsgstr "%s"\n\n' % (k, v)
+        side = rng.random() < 0.5
+        jtext = junk + "\n"
+        a, b = len(head), len(head) + len(jtext)
+        if fmt == "po":
+            b = a + len(junk) + 1
+        with_junk = head + jtext + ent("z", "v")
+        # the junk id: first Junk of the reference is 1; the first Junk of the localization follows the reference's junk
+        if side:
+            key = "_junk_1_%d-%d" % (a, b)
+            other = head + ent(key, rng.choice(["v", "%S", "w�"])) + ent("z", "v")
+            add(fmt, with_junk, other, "junk-key-clash")
+        else:
+            key = "_junk_1_%d-%d" % (a, b)
+            other = head + ent(key, rng.choice(["v", "%S %S", "%1$S"])) + ent("z", "v")
+            add(fmt, other, with_junk, "junk-key-clash-l10n")
+    # (ii) gettext keys are tuples: `repr` of msgid / msgctxt in duplicate and check messages
+    ODD = ["it's", 'say \\"hi\\"', "tab\\there", "back\\\\slash", "é", "­", "​", "\U0001F600", "\U000e0001", "x\u0085y", "a'b\\\"c", "\x7f", " "]
+    for i in range(ctx.n(60, 600)):
+        ids = [rng.choice(ODD) + str(rng.randrange(3)) for _ in range(rng.randrange(1, 4))]
+        def po(ids, bad):
+            out = []
+            for k in ids:
+                if rng.random() < 0.3:
+                    out.append('msgctxt "%s"\n' % rng.choice(ODD))
+                v = rng.choice(["v", "w�", ""]) if bad else "v"
+                out.append('msgid "%s"\nmsgstr "%s"\n\n' % (k, v))
+            return "".join(out)
+        ref = po(ids + ([ids[0]] if rng.random() < 0.3 else []), False)
+        l10n = po(ids + ([ids[-1]] if rng.random() < 0.4 else []), True)
+        add("po", ref, l10n, "po-repr")
+    # (iii) properties: printf / plural / escape findings (errors become skips when merging), duplicates, key bindings
+    PV = [("%S and %S", ["%S und %S", "%d und", "%S", "%1$S %S", "100%"]), ("%1$S of %2$S", ["%2$S von %1$S", "%3$S", "%1$S"]),
+          ("#1 item;#1 items", ["#1 Ding;#1 Dinge", "#2 Ding", "ein Ding", "#1;#1;#1"]), ("plain", ["schlicht \\q", "a\\u00e9b", "x\\\n  y", "w�"]),
+          ("50%", ["50 %", "%"]), ("", ["", " "]), ("a<b>c</b>d e", ["x<i>y</i>z", "a<b>c</b>d e"]), ("one<br>two", ["eins<br>zwei"])]
+    for i in range(ctx.n(80, 800)):
+        n = rng.randrange(1, 5)
+        refl, l10l = [], []
+        for j in range(n):
+            rv, lvs = rng.choice(PV)
+            k = rng.choice(["s%d" % j, "accessKey%d" % j, "cmd.key%d" % j, "pluralRule", "t%d.label" % j])
+            c = rng.choice(["", "", "# LOCALIZATION NOTE: see Localization_and_Plurals\n", "# a comment\n"])
+            refl.append("%s%s = %s\n" % (c, k, rv))
+            r = rng.random()
+            if r < 0.75:
+                l10l.append("%s = %s\n" % (k, rng.choice(lvs + [rv])))
+            if r > 0.9:
+                l10l.append("%s = %s\n" % (k, rng.choice(lvs)))
+            if rng.random() < 0.1:
+                l10l.append("junk line\n")
+        if rng.random() < 0.2:
+            l10l.append("extra%d = x\n" % i)
+        add("properties", "".join(refl), "".join(l10l), "props-checks")
+    # (iv) ini / inc: duplicates, key bindings, junk, U+FFFD in values and in attached comments
+    for i in range(ctx.n(60, 600)):
+        fmt = rng.choice(["ini", "inc"])
+        ks = [rng.choice(["a", "b", "openKey", "cmd.key", "c"]) + rng.choice(["", "1"]) for _ in range(rng.randrange(1, 5))]
+        def body(ks, bad):
+            out = ["[Strings]\n"] if fmt == "ini" else []
+            for k in ks:
+                if bad and rng.random() < 0.15:
+                    out.append(rng.choice(["??\n", "= x\n", "\n\n", "#bad\n"]))
+                if rng.random() < 0.25:
+                    out.append(("; c%s\n" if fmt == "ini" else "# c%s\n") % ("�" if bad and rng.random() < 0.5 else ""))
+                v = rng.choice(["v", "two words", "w�x", "<b>x</b> y", ""]) if bad else rng.choice(
+                    ["v", "two words", "a<b>c</b>d e", "<p>x</p>y", "one<br/>two", "1<2>3 4"])
+                out.append(("%s=%s\n" if fmt == "ini" else "#define %s %s\n") % (k, v))
+            return "".join(out)
+        l10k = [k for k in ks if rng.random() < 0.8] + ([rng.choice(ks)] if rng.random() < 0.3 else []) + (["zz"] if rng.random() < 0.3 else [])
+        rng.shuffle(l10k)
+        add(fmt, body(ks, False), body(l10k, True), "%s-directed" % fmt)
     return cases
 
 
@@ -146,6 +260,10 @@ def finding_of(case, stage, info):
         return "F5-android-no-spans-raise"
     if case["fmt"] == "dtd" and info.get("exc") == "IndexError" and any("dtd.py" in w for w in info.get("where", [])):
         return "F9-dtd-empty-value-index"
+    # root cause: an object of class Junk is used where the loop expects an Entity (it has no equals / value_position /
+    # pre_comment): only possible when a key is shared between a Junk of one file and an entry of the other
+    if stage == "compare" and info.get("exc") == "AttributeError" and "'Junk' object has no attribute" in (info.get("msg") or ""):
+        return "F8-junk-key-clash-raise"
     return None
 
 
@@ -188,6 +306,48 @@ def run(ctx):
                 out.nontrivial.add((c["fmt"], c["l10n"]))
             if len(out.samples) < 8 and c["tag"] in ("l10n-mutated", "ufffd") and v.get("n_details", 0) > 1 and not bad:
                 out.samples.append({"fmt": c["fmt"], "l10n_bytes_latin1": c["l10n"][:300], "summary": v.get("summary"), "lint_results": v.get("n_lint")})
+    # ---- correspondence of the composed pipeline model (compare + toJSON + merge outcome, lint with / without reference)
+    pcases = [c for c in cases if c["fmt"] in PIPE_FORMATS]
+    pres = pool.pmap("impl.pipeline", "impl_pipeline", [[c["fmt"], c["ref"], c["l10n"], c["merge"]] for c in pcases],
+                     timeout=10.0, batch=8)
+    lines, idx = [], []
+    for i, (c, r) in enumerate(zip(pcases, pres)):
+        r = r.get("r", r)
+        if "ref_text" not in r:
+            continue            # the adapter itself failed or hung: the execution oracle above reports it
+        lines.append("c05.compare %s %s %s %d" % (c["fmt"], C.enc(r["ref_text"]), C.enc(r["l10n_text"]), 1 if c["merge"] else 0))
+        idx.append((i, "compare"))
+        lines.append("c05.lint %s %s %s" % (c["fmt"], C.enc(r["ref_text"]), C.enc(r["l10n_text"])))
+        idx.append((i, "lint"))
+        lines.append("c05.lint %s - %s" % (c["fmt"], C.enc(r["l10n_text"])))
+        idx.append((i, "lint_noref"))
+    # oracle on the same runs (fresh-process state: Junk.junkid = 0): neither compare nor lint raises or hangs
+    for c, r0 in zip(pcases, pres):
+        r = r0.get("r", r0)
+        if r0.get("exc") == "Hang":
+            out.violations.append({"what": "%s: comparison/lint (fresh junk counter) does not terminate" % c["fmt"], "input": c, "finding": None})
+            continue
+        for stage in ("compare", "lint", "lint_noref"):
+            info = r.get(stage + "_exc")
+            if info:
+                fid = finding_of(c, "compare" if stage == "compare" else stage, info)
+                out.violations.append({"what": "%s: %s (fresh junk counter) raised %s: %s at %s" % (
+                    c["fmt"], stage, info["exc"], info["msg"], info["where"]), "input": dict(c, fresh=True), "finding": fid})
+                out.count("violation." + (fid or "NEW"))
+    model = C.run_driver_parallel(lines) if ctx.model_ok else []
+    for (i, k), mo in zip(idx, model):
+        c, r = pcases[i], pres[i].get("r", pres[i])
+        out.evaluations += 1
+        im = r[k]
+        if im != mo:
+            out.disagreements.append({"op": "c05." + k, "fmt": c["fmt"], "tag": c["tag"], "merge": c["merge"],
+                                      "ref": r["ref_text"][:400], "l10n": r["l10n_text"][:400], "impl": im[:600], "model": mo[:600]})
+            out.count("pipeline.disagree.%s.%s" % (c["fmt"], k))
+        elif k == "compare" and ("details[]" not in im):
+            out.nontrivial.add(("pipe", c["fmt"], im))
+        out.count("pipeline.%s.%s" % (c["fmt"], k))
+        if im.startswith("raise"):
+            out.count("pipeline.raise.%s" % im.split()[1])
     # correspondence of the base (encoding) check model
     from compare_locales.checks.base import Checker
 
@@ -225,6 +385,11 @@ def replay(payload):
     for v in payload.get("violations", []):
         c = v["input"]
         if "fmt" not in c:
+            continue
+        if c.get("fresh"):
+            r = pool.pmap("impl.pipeline", "impl_pipeline", [[c["fmt"], c["ref"], c["l10n"], c["merge"]]], timeout=30.0)[0]
+            r = r.get("r", r)
+            res.append({"input": c, "oracle": ["%s raised %s" % (st, r[st + "_exc"]) for st in ("compare", "lint", "lint_noref") if r.get(st + "_exc")]})
             continue
         r = pool.pmap("impl.robust", "impl_robust", [[c["fmt"], c["ref"], c["l10n"], c["merge"]]], timeout=30.0)[0]
         res.append({"input": c, "oracle": [m for m, _ in oracle(c, r)]})
